@@ -11,7 +11,7 @@ import luqum.tree as T
 import luqum.check as CK
 
 # math.copysign (external): sign(x) < 0  <=>  x < 0 for the numbers luqum builds (negative zero is not modelled)
-_real_sign = CK.sign
+_real_sign = getattr(CK, "sign", None)       # an implementation detail of the checker: hooked when present, not required
 
 
 def _sign(x):
@@ -20,7 +20,8 @@ def _sign(x):
     return _real_sign(x)
 
 
-CK.sign = _sign
+if _real_sign is not None:
+    CK.sign = _sign
 
 from vfkit import relang as RL
 WORD_RX = ext.full_language_rx(r"\w+")
@@ -309,6 +310,12 @@ def plan(tier, seed):
     pl = Plan("C20", "proof")
     pl.cases = check_cases(tier)
     pl.canaries = [canary()]
+    ntok = 4 if tier == "quick" else 6
+
+    def net():
+        from vfkit import bounded as _b
+        return _b.run_native("c20_check", {"max_tokens": ntok, "known": _b.known_for("C20", "C20-B")})
+    pl.bounded = [("C20-B/verdicts on whole trees with one planted ill-formed construct, fresh vs long-lived checker (safety net)", net)]
     pl.functions = ["luqum.check." + f for f in ("_check_children", "camel_to_lower")] + \
                    ["luqum.check.LuceneCheck." + f for f in
                     ("_check_field_name", "check_search_field", "check_group", "check_field_group", "check_range", "check_word",
